@@ -290,6 +290,36 @@ def run_shard(desc):
             exp = gt.expected_wire(intent, s)
             wit = {'session': sname(k), 'surface': surface, 'route': t, 'negotiated_ref': {kk: (sorted(v) if isinstance(v, set) else v) for kk, v in ref.items()}}
             judge_route(res, k, ref, intent, exp, decs, surface, wit)
+        if surface == 'config' and ci % 3 == 1:
+            # the session is lost and comes back with another peer OPEN (the peer gained or lost the 4-byte AS capability):
+            # the very same Route / attribute objects (kept in the Adj-RIB-Out) are packed again for the new session
+            k2 = dict(k, peer_asn4=not k['peer_asn4'])
+            if sname(k2) in {sname(x) for x in kinds}:
+                try:
+                    pas = k2['las'] if k2['ibgp'] else 65009
+                    caps = [rw.cap_mp(a, s_) for a, s_ in FAMS] + ([rw.cap_asn4(pas)] if k2['peer_asn4'] else [])
+                    if k2['addpath']:
+                        caps.append(rw.cap_addpath([(a, s_, 3) for a, s_ in FAMS]))
+                    if k2['extmsg']:
+                        caps.append((rw.CAP_EXTMSG, b''))
+                    caps.append((rw.CAP_REFRESH, b''))
+                    peer_body = rw.enc_open_body(pas if pas < 65536 else rw.AS_TRANS, 90, '10.0.0.2', caps)
+                    neg2, sent2, ours2 = exa.negotiate(nb, peer_body)
+                    ref2 = rw.negotiate(rw.dec_open(ours2[19:]), rw.dec_open(peer_body))
+                    nb.rib.outgoing.reset()
+                    decs2 = observed_updates(nb, neg2, ref2, None)  # replace_restart: what Peer._main does on a new session
+                except Exception as e:  # noqa
+                    res.violation(f'C01/reconnect-raises:{type(e).__name__}', f'sending the routes again on a re-negotiated session raised {type(e).__name__}: {str(e)[:160]}', {'session': sname(k), 'then': sname(k2)}, 'encode')
+                    continue
+                s2 = {'ibgp': k2['ibgp'], 'local_as': k2['las'], 'asn4': ref2['asn4'], 'local_addr': '127.0.0.1', 'addpath_send': ref2['addpath_send']}
+                for d in decs2:
+                    if 'error' in d:
+                        res.violation('C01/undecodable-update', d['error'], {'session': sname(k2), 'after': sname(k), 'raw': d.get('raw', '')}, 'encode')
+                for t, intent in routes:
+                    judge_route(res, k2, ref2, intent, gt.expected_wire(intent, s2), decs2, 'config-reconnect', {'session': sname(k2), 'surface': 'config-reconnect', 'first_session': sname(k), 'route': t})
+                res.ok('surface:reconnect-other-capabilities')
+            else:
+                res.count('reconnect:no-valid-second-session-kind')
         if surface == 'api' and route_objs and ci % 2 == 0:
             # `announce route` hands the SAME parsed Route (and attribute set) to every neighbor the selector names
             # (Configuration.announce_route: resolve_self only copies for next-hop self). A second neighbor of another kind
@@ -333,7 +363,7 @@ def run_shard(desc):
 
 
 REQUIRED_CLASSES = {
-    'quick': ['surface:config', 'surface:api', 'surface:api-shared-route', 'nexthop-self', 'default:origin:ibgp', 'default:origin:ebgp', 'default:as_path:ibgp', 'default:as_path:ebgp', 'default:local_pref:ibgp', 'default:local_pref:ebgp']
+    'quick': ['surface:config', 'surface:api', 'surface:api-shared-route', 'surface:reconnect-other-capabilities', 'nexthop-self', 'default:origin:ibgp', 'default:origin:ebgp', 'default:as_path:ibgp', 'default:as_path:ebgp', 'default:local_pref:ibgp', 'default:local_pref:ebgp']
     + ['kw:' + n for n in ('origin', 'as_path', 'med', 'local_pref', 'atomic', 'aggregator', 'communities', 'ext_communities', 'large_communities', 'originator', 'cluster_list', 'unknown')],
 }
 REQUIRED_CLASSES['thorough'] = REQUIRED_CLASSES['quick']
